@@ -197,6 +197,11 @@ def main():
             "kind_free_text": "Hypothesis 6.168 strategies / operation-sequence machines and exhaustive enumeration of finite domains, "
                               "each against an independent oracle under oracle/; failures are bucketed by root-cause key, shrunk, and "
                               "written as replay files",
+        }, {
+            "name": "atheris-libfuzzer", "path": "harness/fuzz_c17.py",
+            "serves_properties": ["C17"],
+            "kind_free_text": "coverage-guided supplement of C17's thorough tier: libFuzzer mutates the byte stream behind the same "
+                              "Hypothesis strategies (fuzz_one_input), oracle inside the target; best effort, decides nothing on its own",
         }],
         "checks": checks,
         "notes": "Exit 0 = held (KNOWN-FINDING lines allowed), 1 = VIOLATION line(s), 2 = harness error. known_findings.json lists "
